@@ -232,3 +232,11 @@ pub proof fn lemma_hw_rows(s: Seq<FifoEntry>, ticks: Seq<nat>, k0: nat, i: int, 
         assert(tsc == hw_tsc(t, tsc.channel, tsc.edge));
     }
 }
+
+// ---- the cut at the first counter-0 marker ----------------------------------------------------------------------------------
+pub enum CbError { Refused }            // anyhow::Error, opaque: only "the board is refused" matters
+pub open spec fn is_epoch0(e: FifoEntry) -> bool { e matches FifoEntry::WrapAroundMarker(m) && m.counter == 0 }
+// the first position >= i holding a marker with counter 0, or the length if there is none
+pub open spec fn first_epoch0(s: Seq<FifoEntry>, i: int) -> int decreases s.len() - i {
+    if i < 0 || i >= s.len() { s.len() as int } else if is_epoch0(s[i]) { i } else { first_epoch0(s, i + 1) }
+}
